@@ -105,14 +105,30 @@ type childViolation struct {
 	Input input  `json:"input"`
 }
 
-// sink receives the failures: the parent reports them through chk, a zone
-// child collects them for its summary.
+// sink receives the failures and keeps, per key, the smallest counterexample
+// (shortest expected text, then lexicographic), so that the reported input
+// does not depend on the scheduling of the workers. The parent reports them
+// through chk after each phase, a zone child puts them into its summary.
 type sink struct {
-	r      *chk.Run
-	zone   string // "" in the parent
-	counts sync.Map
-	mu     sync.Mutex
-	list   []childViolation
+	r    *chk.Run
+	zone string   // "" in the parent
+	keys sync.Map // key -> *best
+}
+
+type best struct {
+	mu  sync.Mutex
+	n   atomic.Int64
+	cur atomic.Pointer[childViolation]
+}
+
+func less(aWant, aRaw, bWant, bRaw []byte) bool {
+	if len(aWant) != len(bWant) {
+		return len(aWant) < len(bWant)
+	}
+	if c := bytes.Compare(aWant, bWant); c != 0 {
+		return c < 0
+	}
+	return bytes.Compare(aRaw, bRaw) < 0
 }
 
 // mode recognises the two ways the sign of a TIME can be mangled so that they
@@ -135,21 +151,50 @@ func (s *sink) fail(class string, typ byte, meta uint16, c ref.Cell, why string,
 	if s.zone != "" {
 		key += ":" + s.zone
 	}
-	cnt, _ := s.counts.LoadOrStore(key, new(atomic.Int64))
-	if cnt.(*atomic.Int64).Add(1) > 3 {
+	v, ok := s.keys.Load(key)
+	if !ok {
+		v, _ = s.keys.LoadOrStore(key, &best{})
+	}
+	b := v.(*best)
+	b.n.Add(1)
+	if cur := b.cur.Load(); cur != nil && !less(c.Text, c.Raw, cur.Input.Want, cur.Input.Raw) {
 		return
 	}
 	in := input{Type: typ, Meta: meta, Raw: append([]byte{}, c.Raw...), Want: append([]byte{}, c.Text...), TZ: s.zone}
 	what := fmt.Sprintf("%s: type %d meta %d raw % x: %s", key, typ, meta, in.Raw, why)
 	if s.zone != "" {
 		what += " (TZ=" + s.zone + ")"
-		s.mu.Lock()
-		s.list = append(s.list, childViolation{Key: key, What: what, Input: in})
-		s.mu.Unlock()
-		return
 	}
-	s.r.Report(chk.Violation{Key: key, What: what, Kind: "cell", Replay: in,
-		Recheck: func() string { return checkInput(in) }})
+	b.mu.Lock()
+	if cur := b.cur.Load(); cur == nil || less(in.Want, in.Raw, cur.Input.Want, cur.Input.Raw) {
+		b.cur.Store(&childViolation{Key: key, What: what, Input: in})
+	}
+	b.mu.Unlock()
+}
+
+// flush returns the collected counterexamples in key order and forgets them.
+func (s *sink) flush() []childViolation {
+	var out []childViolation
+	s.keys.Range(func(k, v interface{}) bool {
+		if cur := v.(*best).cur.Load(); cur != nil {
+			cv := *cur
+			cv.What += fmt.Sprintf(" [%d inputs of this class fail in this phase]", v.(*best).n.Load())
+			out = append(out, cv)
+		}
+		s.keys.Delete(k)
+		return true
+	})
+	sort.Slice(out, func(i, j int) bool { return out[i].Key < out[j].Key })
+	return out
+}
+
+// report hands the collected counterexamples of the parent to the runner.
+func (s *sink) report() {
+	for _, v := range s.flush() {
+		in := v.Input
+		s.r.Report(chk.Violation{Key: v.Key, What: v.What, Kind: "cell", Replay: in,
+			Recheck: func() string { return checkInput(in) }})
+	}
 }
 
 func replay(kind string, raw json.RawMessage) (bool, string) {
@@ -789,7 +834,7 @@ func child(r *chk.Run, zone string) {
 		cs.Samples = append(cs.Samples, map[string]interface{}{"zone": zone, "type": "TIMESTAMP2(3)", "raw": fmt.Sprintf("% x", x.Raw), "text": string(x.Text)})
 	}
 	cs.Evals, cs.Distinct = c.evals.Load(), c.distinct.Load()
-	cs.Violations = s.list
+	cs.Violations = s.flush()
 	emit(cs)
 }
 
@@ -852,6 +897,7 @@ func run(r *chk.Run) {
 	phase := func(name string, fn func()) {
 		t0 := time.Now()
 		fn()
+		s.report()
 		walls[name] = float64(int(time.Since(t0).Seconds()*10)) / 10
 	}
 	phase("date", func() { runDates(r, s, &c) })
